@@ -26,6 +26,7 @@ import RapidProofs.ContractsGen2
 import RapidProofs.TranslatedEq
 import RapidProofs.TranslatedProgEq
 import RapidProofs.TranslatedFloatEq
+import RapidProofs.TranslatedFindEq
 import RapidModel.Generated.Thresholds
 import RapidModel.Minimize
 
@@ -272,6 +273,57 @@ theorem float_facts_bits_satisfiable : FloatFactsBits (feOf Rapid.Generated.ft) 
 /-- `FloatFacts` is not an empty hypothesis: an evaluator that answers from the measured table meets it -/
 theorem float_facts_satisfiable : FloatFacts (feOf Rapid.Generated.ft) Rapid.Generated.ft :=
   floatFacts_feOf _ (by decide +kernel)
+
+/-! ### combinators.go, translated on every run: the retry loop, Filter, Custom, Map -/
+
+/-- **`find(gen, t, 5)` of /repo is the model's `findLoop`** (an equality of programs): up to five tries, each inside a group
+    `try` that is discarded when the try gave no value; after the fifth, invalid data "failed to find suitable value
+    in 5 tries" -/
+theorem source_find {V : Type} [Go.Enc V] [Inhabited V] (fe : Go.FEval) (gen : (V → Bool → Prog) → Prog) (k : V → Prog) (fuel : Nat) :
+    Translated.find fe gen 5 (fuel + 6) k =
+      findLoop (gen fun v ok => .ret (Go.Enc.enc (v, ok))) (fun val => (Go.Enc.dec val : V × Bool).2)
+        (fun val => k (Go.Enc.dec val : V × Bool).1) 5 :=
+  tr_find fe gen k fuel
+
+/-- **`Filter` of /repo** (`filteredGen.value`, `filteredGen.maybeValue` and `find`, all translated) **is the `.filter` case of
+    the model's generators**, for every inner generator and predicate -/
+theorem source_filter (fe : Go.FEval) (e : Env) (lab : Bool) (g : Gen) (p : Val → Bool) (fuel : Nat) :
+    RunEq (Translated.filteredGen_value fe (fun k' => (wrapValue (g.lbl lab) (g.body e lab)) >>- k') p (fuel + 6) fun v => .ret v)
+      ((Gen.filter g p).body e lab) := by
+  show RunEq _ (findLoop _ _ _ 5)
+  refine tr_filter fe (wrapValue (g.lbl lab) (g.body e lab)) p fuel _ ?_
+  intro v t; rfl
+
+/-- `Filter` never yields a value its predicate refuses — for the translated source -/
+theorem source_filter_contract (fe : Go.FEval) (e : Env) (lab : Bool) (g : Gen) (p : Val → Bool) (fuel : Nat) (src : Src) (ts : TS) (v : Val)
+    (h : ((Translated.filteredGen_value fe (fun k' => (wrapValue (g.lbl lab) (g.body e lab)) >>- k') p (fuel + 6) fun v => .ret v).run src ts).res = .ok v) :
+    p v = true := by
+  rw [source_filter fe e lab g p fuel src ts] at h
+  exact filter_pred e lab g p src ts v h
+
+/-- **`Custom` of /repo**: `customGen.value` is `find` over `maybeValue`; with the model's `maybeValue` (fresh `T`, deferred
+    cleanups, recovered invalid data — not translated) in its place it is the `.custom` case of the model -/
+theorem source_custom_value (fe : Go.FEval) (e : Env) (lab : Bool) (body : Prog) (fuel : Nat) :
+    RunEq (Translated.customGen_value fe
+        (fun k' => (Prog.inner (.catchInv body fun o _ => .ret (match o with | some v => .cons v .nil | none => .nil)) .ret) >>- fun r =>
+          if r != .nil then k' (match r with | .cons v _ => v | _ => .nil) true else k' (default : Val) false)
+        (fuel + 6) fun v => .ret v)
+      ((Gen.custom body).body e lab) := by
+  show RunEq _ (findLoop _ _ _ 5)
+  refine tr_custom fe _ fuel _ ?_ ?_
+  · intro v t; rfl
+  · intro r hr
+    cases r with
+    | cons v t => exact absurd rfl (hr v t)
+    | int i => rfl
+    | bool b => rfl
+    | nil => rfl
+
+/-- `Map` of /repo is the `.map` case of the model (an equality of programs) -/
+theorem source_map (fe : Go.FEval) (e : Env) (lab : Bool) (g : Gen) (f : Val → Val) (fuel : Nat) :
+    Translated.mappedGen_value fe (fun k' => (wrapValue (g.lbl lab) (g.body e lab)) >>- k') f fuel (fun v => .ret v) =
+      (Gen.map g f).body e lab := by
+  rfl
 
 /-! ### facts re-read from /repo's source on every run -/
 
